@@ -834,6 +834,38 @@ func (x *Exec) evalCall(st *State, fr *Frame, e ECall, sc *scope) (Val, error) {
 		if args[0].T.Sort == SIface && args[0].Dyn != nil {
 			return *args[0].Dyn, nil
 		}
+		// not statically known: when the function itself asserts this very value to exactly one
+		// concrete type, payload(x) is that assertion's result (the unboxing the code performs)
+		if args[0].T.Sort == SIface && fr != nil && fr.fn != nil {
+			var target types.Type
+			for _, b := range fr.fn.Blocks {
+				for _, in := range b.Instrs {
+					ta, ok := in.(*ssa.TypeAssert)
+					if !ok {
+						continue
+					}
+					if _, isIface := ta.AssertedType.Underlying().(*types.Interface); isIface {
+						continue
+					}
+					xv, bound := fr.env[ta.X]
+					if !bound || xv.T.S != args[0].T.S {
+						continue
+					}
+					if target != nil && !types.Identical(target, ta.AssertedType) {
+						return Val{}, fmt.Errorf("payload(): the function asserts the value to several types")
+					}
+					target = ta.AssertedType
+				}
+			}
+			if target != nil {
+				tid := x.S.TypeID(target)
+				sort := x.S.SortOf(target)
+				unbox := fmt.Sprintf("unbox_%d", tid)
+				x.D.DeclareFun(fmt.Sprintf("box_%d", tid), []string{sort}, SIface)
+				x.D.DeclareFun(unbox, []string{SIface}, sort)
+				return Val{T: App(sort, unbox, args[0].T), Typ: target}, nil
+			}
+		}
 		return Val{}, fmt.Errorf("payload(): dynamic value of the interface is not statically known")
 	case "lastret":
 		// lastret("pattern"[, k]): the value the most recent call to a matching callee returned on this
